@@ -37,7 +37,8 @@ ASSUMPTIONS = [
     'a call that raises ends the history: the state a rejected call leaves behind is outside the property as read '
     '(it is inspected and reported in the evidence under states_left_by_raising_calls, not judged)',
     'stepped slices, `del`, auxiliary/superposition streams and the `discard=` flags are not generated; negative '
-    'indices are (item assignment and pop)',
+    'indices (item assignment, pop, insert) and open / negative slice bounds are',
+    'every other unit and every third stream is created unregistered (`ID=None`, ID == \'\'), the others with an auto ID',
     'placeholder objects inside constructor lists are not generated (the code would take them for IDs); the single '
     'form `ins=<placeholder>` is',
     'the placeholders a fixed-size constructor creates and overwrites before returning are unreachable and not observed',
@@ -119,8 +120,7 @@ def setup():
             MON.on_set(self, stream)
             return super()._set_stream(int, stream, stacklevel)
         def _set_streams(self, slice, streams, stacklevel):
-            streams = list(streams)
-            MON.on_slice(self, slice, streams)
+            MON.on_slice(self, slice, list(streams))      # the real code gets the caller's object, live
             return super()._set_streams(slice, streams, stacklevel)
         def insert(self, index, stream):
             if not self._fixed_size: MON.on_add(self, [stream])
@@ -129,8 +129,7 @@ def setup():
             if not self._fixed_size: MON.on_add(self, [stream])
             return super().append(stream)
         def extend(self, streams):
-            streams = list(streams)
-            if not self._fixed_size: MON.on_add(self, streams)
+            if not self._fixed_size: MON.on_add(self, list(streams))
             return super().extend(streams)
 
     WIn = type('WatchedInlets', (Watched, net.AbstractInlets), {'__slots__': ()})
@@ -333,12 +332,14 @@ class Universe:
             u = cls.__new__(cls)
             self.units.append(u)
             try:
-                u.__init__('', ins=ins, outs=outs)
+                # every other unit is unregistered (`ID=None`, like auxiliary units): its ID is the empty string
+                u.__init__(None if len(self.units) % 2 == 0 else '', ins=ins, outs=outs)
             except Exception:
                 self.units.pop(); raise
             self.adopt()
         elif op == 'stream':
-            self.streams.append(net.AbstractStream(''))
+            # every third stream is unregistered (`ID=None`: its ID is the empty string)
+            self.streams.append(net.AbstractStream(None if len(self.streams) % 3 == 2 else ''))
         elif op == 'set':
             self.seq(t[1], int(t[2]))[int(t[3])] = self.optref(t[4])      # the index may be negative
         elif op == 'portset':
@@ -352,11 +353,16 @@ class Universe:
             xs, ss = self.refs(t[2]), self.refs(t[3])
             ports = net.StreamPorts.from_inlets(xs) if t[1] == 'i' else net.StreamPorts.from_outlets(xs)
             ports[:] = ss
+        elif op == 'sport':
+            xs, st = self.refs(t[2]), self.ref(t[4])
+            ports = net.StreamPorts.from_inlets(xs) if t[1] == 'i' else net.StreamPorts.from_outlets(xs)
+            ports[int(t[3])] = st
         elif op == 'own':
             un = self.unit(t[1])
             un._owner = None if t[2] == '-' else self.unit(t[2])
         elif op == 'slice':
-            self.seq(t[1], int(t[2]))[int(t[3]):int(t[4])] = self.optrefs(t[5])
+            bound = lambda x: None if x == 'n' else int(x)      # `n` = an open bound; bounds may be negative
+            self.seq(t[1], int(t[2]))[bound(t[3]):bound(t[4])] = self.optrefs(t[5])
         elif op == 'sliceall':
             self.seq(t[1], int(t[2]))[:] = self.optrefs(t[3])
         elif op == 'ins':
@@ -701,7 +707,7 @@ def gen_op(rng, U):
         [14, 6, 4, 6, 6, 3, 6, 7, 6, 3, 3, 3, 3,
          3, 5, 4, 3, 3, 4, 5, 4, 4, 6,
          3, 3, 2, 2, 4,
-         4, 4, 2, 2, 3, 3, 2, 1])[0]
+         4, 4, 2, 2, 3, 3, 4, 2])[0]
     if kind == 'stream': return 'stream'
     if kind == 'unit':
         return gen_unit(rng, U, rng.choice(SHAPES))
@@ -743,6 +749,8 @@ def gen_op(rng, U):
             ss.append(t)
             try: used.append(U.ref(t))
             except Exception: pass
+        if rng.random() < 0.45:
+            return f'sport {k} {",".join(U.name(x) for x in xs)} {rng.randrange(len(xs) + (rng.random() < 0.05))} {ss[0]}'
         return f'sports {k} {",".join(U.name(x) for x in xs)} {",".join(ss)}'
     if kind in ('set', 'pipe_s_i_u', 'pipe_u_i_s', 'portset'):
         if kind == 'pipe_s_i_u': k = 'i'; seq = U.seq(k, u); n = len(seq._streams)
@@ -799,7 +807,14 @@ def gen_op(rng, U):
             try: used.append(U.ref(s))
             except Exception: pass
         it = ','.join(items) if items else '[]'
-        if kind == 'slice': return f'slice {k} {u} {a} {b} {it}'
+        if kind == 'slice':
+            # the same slice written with an open or a negative bound (`seq[:-1]`, `seq[-2:]`, `seq[a:]`)
+            if n and a <= n and b <= n and rng.random() < 0.3:
+                r = rng.random()
+                a2 = 'n' if (a == 0 and r < 0.5) else (a - n if (a < n and r < 0.8) else a)
+                b2 = 'n' if (b == n and rng.random() < 0.6) else (b - n if (b < n and rng.random() < 0.8) else b)
+                return f'slice {k} {u} {a2} {b2} {it}'
+            return f'slice {k} {u} {a} {b} {it}'
         if kind == 'sliceall': return f'sliceall {k} {u} {it}'
         if kind in ('pipe_ss_u', 'pipe_ls_u'):
             if not items: return f'sliceall i {u} []'
@@ -810,7 +825,9 @@ def gen_op(rng, U):
         s = choose_stream(rng, U, k, allow_placeholder=0.2, undocked_only=True)
         if s is None: return 'stream'
         if kind == 'app': return f'app {k} {u} {s}'
-        return f'ins {k} {u} {rng.randrange(n + 2)} {s}'
+        i = rng.randrange(n + 2)
+        if rng.random() < 0.25: i = -rng.randrange(1, n + 3)        # `seq.insert(-1, s)`
+        return f'ins {k} {u} {i} {s}'
     if kind == 'ext':
         m = rng.randrange(3)
         items = []
@@ -876,11 +893,19 @@ def gen_op(rng, U):
     if kind == 'recon':
         s = choose_stream(rng, U, k, allow_placeholder=0.1)
         if s is None: return 'stream'
-        def port(kk):
-            if rng.random() < 0.35: return '-'
-            v = rng.randrange(nu); m = len(U.seq(kk, v)._streams)
+        def port(kk, v=None):
+            if v is None and rng.random() < 0.35: return '-'
+            if v is None: v = rng.randrange(nu)
+            m = len(U.seq(kk, v)._streams)
             if m == 0: return '-'
             return f'{v}:{rng.randrange(m)}'
+        owned = [(a, U.units.index(un._owner)) for a, un in enumerate(U.units)
+                 if getattr(un, '_owner', None) is not None and any(un._owner is x for x in U.units)]
+        if owned and rng.random() < 0.5:
+            # a connection between an auxiliary unit and its owner (either direction): left alone by reconnect
+            a, o = rng.choice(owned)
+            if rng.random() < 0.5: a, o = o, a
+            return f'recon {port("o", a)} {s} {port("i", o)}'
         return f'recon {port("o")} {s} {port("i")}'
     if kind == 'uins':
         # a stream (sometimes a placeholder that connects two units) with both ends connected is the intended use
@@ -1069,6 +1094,10 @@ def alphabet():
             ops.append(f'set {k} {u} -1 m4'); ops.append(f'pop {k} {u} -1'); ops.append(f'pop {k} {u} -2')
             ops.append(f'portset {k} {u} 0 s2'); ops.append(f'portset {k} {u} 1 m4')
             ops.append(f'portfrom {k} p{k}.{u}.0 s1'); ops.append(f'portfrom {k} s0 s1')
+            # open / negative slice bounds, negative insert index
+            ops.append(f'slice {k} {u} n -1 []'); ops.append(f'slice {k} {u} -1 n s0'); ops.append(f'slice {k} {u} -2 -1 s1')
+            ops.append(f'slice {k} {u} n n s2,s3'); ops.append(f'slice {k} {u} 1 n m4')
+            ops.append(f'ins {k} {u} -1 s0'); ops.append(f'ins {k} {u} -5 s1'); ops.append(f'ins {k} {u} -1 m4')
         # `stream - unit`, `unit - stream`, the same with lists
         for s in S[:3] + ['m0']:
             ops.append(f'pipe_s_u {s} {u}'); ops.append(f'pipe_u_s {u} {s}')
@@ -1089,6 +1118,7 @@ def alphabet():
             'unit 1 0 L:s0,none,s1 2 1 L:new', 'unit 2 1 S:s0 1 1 S:s0']
     # StreamPorts, Connection.reconnect (with and without an owner relation)
     ops += ['sports i m0,m3 s0,s1', 'sports o m2,m4 s0,s1', 'sports i m0 s0,s1', 'sports i s0 s1',
+            'sport i m0,m3 0 s0', 'sport i m0,m3 1 s1', 'sport o m2,m4 1 s2', 'sport i m6 1 s0', 'sport o m8,m9 0 m0',
             'recon 0:0 s0 1:0', 'recon 1:0 s1 0:1', 'recon - s0 0:0', 'recon 0:0 s0 -', 'recon 2:1 s2 2:0',
             'recon - s0 -']
     return ops
@@ -1134,9 +1164,27 @@ def alphabet2():
             'unit 1 1 S:s0 1 1 M', 'unit 2 1 S:s3 2 1 S:s1',
             'portfrom i s1 s3', 'portfrom o s1 s3', 'portfrom i s2 m1', 'portfrom o s2 m0', 'portfrom i s4 s0',
             'sports i s1,s2 s3,s0', 'sports o s1,s2 s4,s0', 'sports i s0,s3 m1,s4',
+            'sport i s1,s2 0 s3', 'sport i s1,s2 1 s0', 'sport o s1,s2 0 s4', 'sport o s2,s4 1 s3', 'sport i s0,s3 1 m1',
+            'slice i 2 n -1 []', 'slice i 2 -1 n s0', 'slice o 1 -2 -1 s3', 'slice i 0 n -1 s3', 'slice o 2 n n s0',
+            'ins i 1 -1 s3', 'ins o 2 -1 s0', 'ins i 1 -1 s0', 'ins o 2 -3 m0',
             'recon 0:0 s1 1:0', 'recon 1:0 s2 2:0', 'recon 0:0 s2 2:1', 'recon - s1 1:0', 'recon 0:0 s1 -',
             'recon 1:1 s4 3:0', 'recon 3:0 s1 0:1']
     return ops
+
+
+def owner_grid():
+    """`Connection.reconnect` between an auxiliary unit and its owner, both directions, over the connected
+    4-unit universe: `own a b` (unit a is owned by b) followed by a reconnect whose source/sink are a and b"""
+    cases = []
+    for a in range(4):
+        for b in range(4):
+            if a == b: continue
+            for s in ('s0', 's1', 's2', 's4'):
+                for i in (0, 1):
+                    for j in (0, 1):
+                        cases.append(BASE2 + [f'own {a} {b}', f'recon {b}:{i} {s} {a}:{j}'])   # owner is the source
+                        cases.append(BASE2 + [f'own {a} {b}', f'recon {a}:{i} {s} {b}:{j}'])   # owner is the sink
+    return cases
 
 
 def generate(rng, tier, index, nworkers):
@@ -1160,7 +1208,10 @@ def generate(rng, tier, index, nworkers):
         pairs = [(a, c) for a in movers for c in movers]
         for j in range(index, len(pairs), nworkers):
             yield Case(BASE2 + list(pairs[j]), {'exhaustive': 'movers-2'})
-    for _ in range(6 if tier == 'quick' else 40):
+    G = owner_grid()
+    for j in range(index, len(G), nworkers):
+        yield Case(G[j], {'exhaustive': 'owner-grid'})
+    for _ in range(6 if tier == 'quick' else 16):
         pre = gen_case(rng, 3, 5, rng.randrange(2, 10), tail=0).ops
         # keep only if the prefix has the standard universe shape (3 units, 5 streams at the front)
         base = ['stream'] * 5 + [l for l in pre if l.startswith('unit')][:3]
